@@ -114,11 +114,32 @@ def selftest_ihex():
     return n
 
 
+def selftest_yaml():
+    """The verifier's YAML/JSON renderings of a description must denote exactly that description."""
+    import json
+    import tempfile
+
+    import yaml
+
+    from . import sut
+
+    d = {"a": ["0\u00e0\u0085", "x y", " ", " lead", "trail ", "multi\nline\n", "tab\t", "\x00\x01", "~", "null", "1e3", "0x10", "yes", "\ufeff", "\u00e9" * 30, "#c", ": x",
+               "- y", "'q'", '"dq"', "\\n", "\r\n", "a\rb", "\u2028x", "\U0001d11e"], "b": {"1": 1, "true": True, "": None}}
+    for ext, load in ((".yaml", lambda fh: yaml.safe_load(fh)), (".json", json.load)):
+        p = tempfile.mktemp(suffix=ext)
+        sut.dump_desc(d, p)
+        with open(p, encoding="utf-8") as fh:
+            assert load(fh) == d, ext
+        os.unlink(p)
+    return "faithful"
+
+
 def main():
     install()
     boot.import_sut(guard_on=True)
     print("selftest cborlite vs cbor2:", selftest_cbor(), "values ok")
     print("selftest ihex vs intelhex:", selftest_ihex(), "files ok")
+    print("selftest YAML/JSON rendering of descriptions:", selftest_yaml())
     # later self-tests are added by the modules that need them
     for name in ("vf.refenc", "vf.crypto_oracle"):
         try:
